@@ -106,42 +106,156 @@ noncomputable def gumbelCDF (mu beta x : ℝ) : ℝ := Real.exp (-Real.exp (-(x 
 /-- CDF of the uniform law on `[a, b]`, on `a ≤ x ≤ b`. -/
 noncomputable def uniformCDF (a b x : ℝ) : ℝ := (x - a) / (b - a)
 
-/-- **Exponential.** One uniform `u` is consumed and, for `u ∈ (0,1)`, `F(sample) = 1 - u`. -/
-theorem exponential_inverse_cdf (lam : ℝ) (hl : 0 < lam) (g : Rng) (hu : 0 < (g.f64 (α := ℝ)).1) :
-    expCDF lam (Exponential.sample lam g).1 = 1 - (g.f64 (α := ℝ)).1 ∧ (Exponential.sample lam g).2 = (g.f64 (α := ℝ)).2 := by
-  simp only [Exponential.sample, uniformF_unit, expCDF, Transc.ln]
-  refine ⟨?_, trivial⟩
-  have : -lam * (-Real.log (g.f64 (α := ℝ)).1 / lam) = Real.log (g.f64 (α := ℝ)).1 := by
-    field_simp
-  rw [this, Real.exp_log hu]
+/-- The uniform that the redraw loop `while u == 0.` (repair F53) hands to the inverse-cdf formula: index `k` is the first
+non-zero uniform of the stream starting in state `g`. -/
+def FirstNonzero (g : Rng) (k : Nat) : Prop := (∀ j < k, uAt g j = 0) ∧ uAt g k ≠ 0
 
-example : ∃ g : Rng, 0 < (g.f64 (α := ℝ)).1 := ⟨⟨0⟩, f64_pos_of_f53_ne_zero _ (by decide +kernel)⟩
+theorem firstNonzero_pos {g : Rng} {k : Nat} (h : FirstNonzero g k) : 0 < uAt g k ∧ uAt g k < 1 :=
+  ⟨lt_of_le_of_ne (uAt_mem g k).1 (Ne.symm h.2), (uAt_mem g k).2⟩
 
-/-- **Pareto.** For `u ∈ (0,1)`: `F(sample) = 1 - u`. -/
-theorem pareto_inverse_cdf (alpha xm : ℝ) (ha : 0 < alpha) (hm : 0 < xm) (g : Rng) (hu : 0 < (g.f64 (α := ℝ)).1) :
-    paretoCDF alpha xm (Pareto.sample alpha xm g).1 = 1 - (g.f64 (α := ℝ)).1 ∧ (Pareto.sample alpha xm g).2 = (g.f64 (α := ℝ)).2 := by
-  simp only [Pareto.sample, paretoCDF, Transc.pow]
-  refine ⟨?_, trivial⟩
-  set u := (g.f64 (α := ℝ)).1
-  have hp : 0 < u ^ (1 / alpha) := Real.rpow_pos_of_pos hu _
-  have h1 : xm / (xm / u ^ (1 / alpha)) = u ^ (1 / alpha) := by field_simp
-  rw [h1, ← Real.rpow_mul hu.le]
-  have : 1 / alpha * alpha = 1 := by field_simp
-  rw [this, Real.rpow_one]
+theorem firstNonzero_unique {g : Rng} {k k' : Nat} (h : FirstNonzero g k) (h' : FirstNonzero g k') : k = k' := by
+  rcases Nat.lt_trichotomy k k' with hlt | heq | hgt
+  · exact absurd (h'.1 k hlt) h.2
+  · exact heq
+  · exact absurd (h.1 k' hgt) h'.2
 
-/-- **Gumbel.** For `u ∈ (0,1)`: `F(sample) = u`. -/
-theorem gumbel_inverse_cdf (mu beta : ℝ) (hb : 0 < beta) (g : Rng) (hu : 0 < (g.f64 (α := ℝ)).1) :
-    gumbelCDF mu beta (Gumbel.sample mu beta g).1 = (g.f64 (α := ℝ)).1 ∧ (Gumbel.sample mu beta g).2 = (g.f64 (α := ℝ)).2 := by
-  simp only [Gumbel.sample, uniformF_unit, gumbelCDF, Transc.ln]
-  refine ⟨?_, trivial⟩
-  have h1 := (f64_mem g).2
-  set u := (g.f64 (α := ℝ)).1
-  have hl : 0 < -Real.log u := by
-    have := Real.log_neg hu h1
-    linarith
-  have : -(mu - beta * Real.log (-Real.log u) - mu) / beta = Real.log (-Real.log u) := by
-    field_simp; ring
-  rw [this, Real.exp_log hl, neg_neg, Real.exp_log hu]
+/-- What every returning call of the three inverse-cdf samplers does with the generator: `k + 1` uniforms are consumed,
+the first `k` are exactly `0`, and the formula is applied to the `k`-th, which lies in `(0, 1)`. -/
+theorem redraw_unit_spec (fuel : Nat) (g g' : Rng) (u : ℝ)
+    (h : redrawNonzero (UniformF.sample (0 : ℝ) 1) fuel g = some (u, g')) :
+    ∃ k, k < fuel ∧ FirstNonzero g k ∧ u = uAt g k ∧ g' = stAfter g (k + 1) := by
+  rw [uniformF_unit_fun] at h
+  obtain ⟨k, _, h2, h3, h4, h5, h6⟩ := redraw_f64_spec g fuel 0 u g' h
+  exact ⟨k, by omega, ⟨fun j hj => h3 j (Nat.zero_le _) hj, h4⟩, h5, h6⟩
+
+/-- **Termination of the redraw loop**: it ends at the first state whose uniform is not `0` (given that much fuel). -/
+theorem redraw_unit_returns (fuel : Nat) (g : Rng) (k : Nat) (hk : FirstNonzero g k) (hf : k < fuel) :
+    redrawNonzero (UniformF.sample (0 : ℝ) 1) fuel g = some (uAt g k, stAfter g (k + 1)) := by
+  rw [uniformF_unit_fun]
+  exact redraw_f64_complete g fuel 0 k (Nat.zero_le _) (by omega) (fun j _ hj => hk.1 j hj) hk.2
+
+/-- The F53 witness state: after `alea::set_seed(0x5F89E29B87429BD1)` the first uniform is exactly `0` (the state wraps to
+`0`) and the second is not: the samplers consume two uniforms there. -/
+theorem f53_state : FirstNonzero (Rng.ofSeed 0x5F89E29B87429BD1) 1 := by
+  have h0 : ((Rng.ofSeed 0x5F89E29B87429BD1).f53).1 = 0 := by decide +kernel
+  have h1 : ((stAfter (Rng.ofSeed 0x5F89E29B87429BD1) 1).f53).1 ≠ 0 := by
+    show (((Rng.ofSeed 0x5F89E29B87429BD1).u64).2.f53).1 ≠ 0
+    decide +kernel
+  constructor
+  · intro j hj
+    have : j = 0 := by omega
+    subst this
+    show ((Rng.ofSeed 0x5F89E29B87429BD1).f64 (α := ℝ)).1 = 0
+    rw [f64_eq, h0]; simp
+  · exact (f64_pos_of_f53_ne_zero _ h1).ne'
+
+/-- an ordinary state: the first uniform is already non-zero -/
+theorem firstNonzero_zero_of_pos (g : Rng) (h : (g.f53).1 ≠ 0) : FirstNonzero g 0 :=
+  ⟨fun j hj => absurd hj (Nat.not_lt_zero _), (f64_pos_of_f53_ne_zero g h).ne'⟩
+
+/-- **Exponential** (every generator state for which the call returns, every rate `> 0`): with `u` the first non-zero
+uniform of the stream, `F(sample) = 1 - u`, the draw is `> 0`, and the state is the one right after `u`. -/
+theorem exponential_inverse_cdf (lam : ℝ) (hl : 0 < lam) (fuel : Nat) (g g' : Rng) (x : ℝ)
+    (h : Exponential.sample fuel lam g = some (x, g')) :
+    ∃ k, k < fuel ∧ FirstNonzero g k ∧ expCDF lam x = 1 - uAt g k ∧ 0 < x ∧ g' = stAfter g (k + 1) := by
+  unfold Exponential.sample at h
+  cases hr : redrawNonzero (UniformF.sample (0 : ℝ) 1) fuel g with
+  | none => simp [hr] at h
+  | some r =>
+    obtain ⟨u, g1⟩ := r
+    simp only [hr, Option.map_some, Option.some.injEq, Prod.mk.injEq] at h
+    obtain ⟨k, hk, hfn, hu, hg⟩ := redraw_unit_spec fuel g g1 u hr
+    obtain ⟨hpos, hlt⟩ := firstNonzero_pos hfn
+    refine ⟨k, hk, hfn, ?_, ?_, by rw [← h.2, hg]⟩
+    · rw [← h.1, hu]
+      simp only [Exponential.ofU, expCDF, Transc.ln]
+      have : -lam * (-Real.log (uAt g k) / lam) = Real.log (uAt g k) := by field_simp
+      rw [this, Real.exp_log hpos]
+    · rw [← h.1, hu]
+      simp only [Exponential.ofU, Transc.ln]
+      have := Real.log_neg hpos hlt
+      exact div_pos (by linarith) hl
+
+/-- **Exponential, termination**: the call returns as soon as the stream has a non-zero uniform within the fuel. -/
+theorem exponential_returns (lam : ℝ) (fuel : Nat) (g : Rng) (k : Nat) (hk : FirstNonzero g k) (hf : k < fuel) :
+    Exponential.sample fuel lam g = some (Exponential.ofU lam (uAt g k), stAfter g (k + 1)) := by
+  simp [Exponential.sample, redraw_unit_returns fuel g k hk hf]
+
+example : ∃ x g', Exponential.sample 1 (2 : ℝ) ⟨0⟩ = some (x, g') :=
+  ⟨_, _, exponential_returns 2 1 ⟨0⟩ 0 (firstNonzero_zero_of_pos _ (by decide +kernel)) (by omega)⟩
+/-- at the F53 state the sampler redraws once and returns a finite positive value computed from the second uniform -/
+example : ∃ x g', Exponential.sample 2 (1 : ℝ) (Rng.ofSeed 0x5F89E29B87429BD1) = some (x, g') ∧ 0 < x := by
+  have h := exponential_returns 1 2 _ 1 f53_state (by omega)
+  obtain ⟨k, _, _, _, hx, _⟩ := exponential_inverse_cdf 1 one_pos 2 _ _ _ h
+  exact ⟨_, _, h, hx⟩
+
+/-- **Pareto** (every returning call): `F(sample) = 1 - u` and `sample ≥ x_m`, `u` the first non-zero uniform. -/
+theorem pareto_inverse_cdf (alpha xm : ℝ) (ha : 0 < alpha) (hm : 0 < xm) (fuel : Nat) (g g' : Rng) (x : ℝ)
+    (h : Pareto.sample fuel alpha xm g = some (x, g')) :
+    ∃ k, k < fuel ∧ FirstNonzero g k ∧ paretoCDF alpha xm x = 1 - uAt g k ∧ xm ≤ x ∧ g' = stAfter g (k + 1) := by
+  unfold Pareto.sample at h
+  cases hr : redrawNonzero (fun g => g.f64 (α := ℝ)) fuel g with
+  | none => simp [hr] at h
+  | some r =>
+    obtain ⟨u, g1⟩ := r
+    simp only [hr, Option.map_some, Option.some.injEq, Prod.mk.injEq] at h
+    obtain ⟨k, _, h2, h3, h4, h5, h6⟩ := redraw_f64_spec g fuel 0 u g1 hr
+    have hfn : FirstNonzero g k := ⟨fun j hj => h3 j (Nat.zero_le _) hj, h4⟩
+    obtain ⟨hpos, hlt⟩ := firstNonzero_pos hfn
+    have hp : 0 < uAt g k ^ (1 / alpha) := Real.rpow_pos_of_pos hpos _
+    refine ⟨k, by omega, hfn, ?_, ?_, by rw [← h.2, h6]⟩
+    · rw [← h.1, h5]
+      simp only [Pareto.ofU, paretoCDF, Transc.pow]
+      have h1 : xm / (xm / uAt g k ^ (1 / alpha)) = uAt g k ^ (1 / alpha) := by field_simp
+      rw [h1, ← Real.rpow_mul hpos.le]
+      have : 1 / alpha * alpha = 1 := by field_simp
+      rw [this, Real.rpow_one]
+    · rw [← h.1, h5]
+      simp only [Pareto.ofU, Transc.pow]
+      have hle : uAt g k ^ (1 / alpha) ≤ 1 := Real.rpow_le_one hpos.le hlt.le (by positivity)
+      rw [le_div_iff₀ hp]
+      nlinarith
+
+theorem pareto_returns (alpha xm : ℝ) (fuel : Nat) (g : Rng) (k : Nat) (hk : FirstNonzero g k) (hf : k < fuel) :
+    Pareto.sample fuel alpha xm g = some (Pareto.ofU alpha xm (uAt g k), stAfter g (k + 1)) := by
+  have := redraw_f64_complete g fuel 0 k (Nat.zero_le _) (by omega) (fun j _ hj => hk.1 j hj) hk.2
+  have h0 : stAfter g 0 = g := rfl
+  rw [h0] at this
+  simp [Pareto.sample, this]
+
+example : ∃ x g', Pareto.sample 2 (3 : ℝ) 1 (Rng.ofSeed 0x5F89E29B87429BD1) = some (x, g') ∧ 1 ≤ x := by
+  have h := pareto_returns 3 1 2 _ 1 f53_state (by omega)
+  obtain ⟨k, _, _, _, hx, _⟩ := pareto_inverse_cdf 3 1 (by norm_num) one_pos 2 _ _ _ h
+  exact ⟨_, _, h, hx⟩
+
+/-- **Gumbel** (every returning call): `F(sample) = u`, `u` the first non-zero uniform. -/
+theorem gumbel_inverse_cdf (mu beta : ℝ) (hb : 0 < beta) (fuel : Nat) (g g' : Rng) (x : ℝ)
+    (h : Gumbel.sample fuel mu beta g = some (x, g')) :
+    ∃ k, k < fuel ∧ FirstNonzero g k ∧ gumbelCDF mu beta x = uAt g k ∧ g' = stAfter g (k + 1) := by
+  unfold Gumbel.sample at h
+  cases hr : redrawNonzero (UniformF.sample (0 : ℝ) 1) fuel g with
+  | none => simp [hr] at h
+  | some r =>
+    obtain ⟨u, g1⟩ := r
+    simp only [hr, Option.map_some, Option.some.injEq, Prod.mk.injEq] at h
+    obtain ⟨k, hk, hfn, hu, hg⟩ := redraw_unit_spec fuel g g1 u hr
+    obtain ⟨hpos, hlt⟩ := firstNonzero_pos hfn
+    refine ⟨k, hk, hfn, ?_, by rw [← h.2, hg]⟩
+    rw [← h.1, hu]
+    simp only [Gumbel.ofU, gumbelCDF, Transc.ln]
+    have hl : 0 < -Real.log (uAt g k) := by
+      have := Real.log_neg hpos hlt
+      linarith
+    have : -(mu - beta * Real.log (-Real.log (uAt g k)) - mu) / beta = Real.log (-Real.log (uAt g k)) := by
+      field_simp; ring
+    rw [this, Real.exp_log hl, neg_neg, Real.exp_log hpos]
+
+theorem gumbel_returns (mu beta : ℝ) (fuel : Nat) (g : Rng) (k : Nat) (hk : FirstNonzero g k) (hf : k < fuel) :
+    Gumbel.sample fuel mu beta g = some (Gumbel.ofU mu beta (uAt g k), stAfter g (k + 1)) := by
+  simp [Gumbel.sample, redraw_unit_returns fuel g k hk hf]
+
+example : ∃ x g', Gumbel.sample 2 (0 : ℝ) 1 (Rng.ofSeed 0x5F89E29B87429BD1) = some (x, g') :=
+  ⟨_, _, gumbel_returns 0 1 2 _ 1 f53_state (by omega)⟩
 
 /-- **Uniform.** For `a < b` and every draw: `F(sample) = u`. -/
 theorem uniform_inverse_cdf (a b : ℝ) (hab : a < b) (g : Rng) :
@@ -169,26 +283,17 @@ theorem bernoulli_degenerate (g : Rng) :
 
 /-! ### 4a. Support of the inverse-CDF samplers -/
 
-/-- Pareto draws are `≥ x_m` (for `u ∈ (0,1)`). -/
-theorem pareto_support (alpha xm : ℝ) (ha : 0 < alpha) (hm : 0 < xm) (g : Rng) (hu : 0 < (g.f64 (α := ℝ)).1) :
-    xm ≤ (Pareto.sample alpha xm g).1 := by
-  simp only [Pareto.sample, Transc.pow]
-  have h1 := (f64_mem g).2
-  set u := (g.f64 (α := ℝ)).1
-  have hp : 0 < u ^ (1 / alpha) := Real.rpow_pos_of_pos hu _
-  have hle : u ^ (1 / alpha) ≤ 1 := Real.rpow_le_one hu.le h1.le (by positivity)
-  rw [le_div_iff₀ hp]
-  nlinarith
+/-- Pareto draws are `≥ x_m`: every returning call, every generator state (the redraw loop removes `u = 0`). -/
+theorem pareto_support (alpha xm : ℝ) (ha : 0 < alpha) (hm : 0 < xm) (fuel : Nat) (g g' : Rng) (x : ℝ)
+    (h : Pareto.sample fuel alpha xm g = some (x, g')) : xm ≤ x := by
+  obtain ⟨_, _, _, _, hx, _⟩ := pareto_inverse_cdf alpha xm ha hm fuel g g' x h
+  exact hx
 
-/-- Exponential draws are `≥ 0` (for `u ∈ (0,1)`). -/
-theorem exponential_support (lam : ℝ) (hl : 0 < lam) (g : Rng) (hu : 0 < (g.f64 (α := ℝ)).1) :
-    0 ≤ (Exponential.sample lam g).1 := by
-  simp only [Exponential.sample, uniformF_unit, Transc.ln]
-  have h1 := (f64_mem g).2
-  set u := (g.f64 (α := ℝ)).1
-  have := Real.log_neg hu h1
-  apply div_nonneg _ hl.le
-  linarith
+/-- Exponential draws are `> 0`: every returning call, every generator state. -/
+theorem exponential_support (lam : ℝ) (hl : 0 < lam) (fuel : Nat) (g g' : Rng) (x : ℝ)
+    (h : Exponential.sample fuel lam g = some (x, g')) : 0 < x := by
+  obtain ⟨_, _, _, _, hx, _⟩ := exponential_inverse_cdf lam hl fuel g g' x h
+  exact hx
 
 /-- Uniform draws lie in `[a, b]` (in fact in `[a, b)`), for every state; equal bounds give the bound. -/
 theorem uniform_support (a b : ℝ) (hab : a ≤ b) (g : Rng) :
@@ -465,6 +570,48 @@ theorem binomial_inversion_le (fuel n : Nat) (p : ℝ) (h0 : 0 < p) (h1 : p < 1)
   rw [binCDF_top] at this
   have := (f64_mem g).2
   linarith
+
+/-! #### Termination of the two exact discrete samplers (over ℝ, every generator state) -/
+
+/-- **The Poisson multiplication method terminates**, for every rate and every generator state: the uniforms are
+`≤ 1 - 2⁻⁵³`, so the running product falls to `e^{-λ}` after finitely many draws; with that much fuel the sampler returns. -/
+theorem poisson_mult_terminates (lam : ℝ) (g : Rng) :
+    ∃ k, Poisson.sampleMultNat (k + 1) lam g = some (k, stAfter g (k + 1)) := by
+  classical
+  have hex : ∃ k, prodU g (k + 1) ≤ Real.exp (-lam) := exists_prodU_le g _ (Real.exp_pos _)
+  refine ⟨Nat.find hex, poisson_mult_complete _ lam g _ (Nat.lt_succ_self _) ?_ (Nat.find_spec hex)⟩
+  intro j hj
+  exact not_le.mp (Nat.find_min hex hj)
+
+/-- more fuel never changes that: any fuel above the count returns the same count -/
+theorem poisson_mult_terminates_fuel (lam : ℝ) (g : Rng) :
+    ∃ k, ∀ fuel, k < fuel → Poisson.sampleMultNat fuel lam g = some (k, stAfter g (k + 1)) := by
+  classical
+  have hex : ∃ k, prodU g (k + 1) ≤ Real.exp (-lam) := exists_prodU_le g _ (Real.exp_pos _)
+  refine ⟨Nat.find hex, fun fuel hf => poisson_mult_complete fuel lam g _ hf ?_ (Nat.find_spec hex)⟩
+  intro j hj
+  exact not_le.mp (Nat.find_min hex hj)
+
+/-- **Binomial inversion terminates** (`0 < p < 1`, every `n`, every generator state) within `n + 1` iterations: the mass
+function sums to `1 > u`, so the first `k` with `u ≤ F(k)` exists and is `≤ n`. -/
+theorem binomial_inversion_terminates (n : Nat) (p : ℝ) (h0 : 0 < p) (h1 : p < 1) (g : Rng) :
+    ∃ k, k ≤ n ∧ ∀ fuel, n < fuel → Binomial.inversion fuel n p g = some (k, (g.f64 (α := ℝ)).2) := by
+  classical
+  have hu := (f64_mem g).2
+  have hex : ∃ k, (g.f64 (α := ℝ)).1 ≤ binCDF n p k := ⟨n, by rw [binCDF_top]; exact hu.le⟩
+  have hkn : Nat.find hex ≤ n := Nat.find_min' hex (by rw [binCDF_top]; exact hu.le)
+  refine ⟨Nat.find hex, hkn, fun fuel hf => ?_⟩
+  have hpow : Transc.exp (((n : ℕ) : ℝ) * Log1p.log1p (-p)) = (1 - p) ^ n := by
+    show Real.exp ((n : ℝ) * Real.log (1 + -p)) = (1 - p) ^ n
+    have hq : 0 < 1 + -p := by linarith
+    rw [mul_comm, Real.exp_mul, Real.exp_log hq, Real.rpow_natCast]
+    first | rfl | (congr 1; ring)
+  have e0 : binTerm n p 0 = (1 - p) ^ n := by simp [binTerm]
+  have e1 : (g.f64 (α := ℝ)).1 - (binCDF n p 0 - binTerm n p 0) = (g.f64 (α := ℝ)).1 := by simp [binCDF]
+  have hc := invLoop_complete n p h0 h1 (g.f64 (α := ℝ)).1 fuel 0 (Nat.find hex) (Nat.zero_le _) (by omega)
+    (fun j _ hj => not_le.mp (Nat.find_min hex hj)) (Nat.find_spec hex)
+  rw [e1, e0] at hc
+  simp only [Binomial.inversion, hpow, hc, Option.map_some]
 
 /-- The mass function the loop walks is the binomial one and sums to one. -/
 theorem binomial_mass_total (n : Nat) (p : ℝ) : binCDF n p n = 1 := binCDF_top n p
